@@ -71,7 +71,12 @@ func poolIds(n int) []uuid.UUID {
 }
 
 func genDoc(t *rapid.T, label string) model.Doc {
-	d := model.Doc{"n": int64(rapid.IntRange(-3, 6).Draw(t, label+"-n")), "tag": rapid.SampledFrom([]string{"a", "b", "c"}).Draw(t, label+"-tag"),
+	n := int64(rapid.IntRange(-3, 6).Draw(t, label+"-n"))
+	if rapid.IntRange(0, 7).Draw(t, label+"-nbig") == 0 {
+		// sort keys far apart (their difference does not fit an int64)
+		n = rapid.SampledFrom([]int64{math.MinInt64, math.MinInt64 + 1, -9000000000000000000, 9000000000000000000, math.MaxInt64 - 1, math.MaxInt64}).Draw(t, label+"-nbigv")
+	}
+	d := model.Doc{"n": n, "tag": rapid.SampledFrom([]string{"a", "b", "c"}).Draw(t, label+"-tag"),
 		"vec": []float32{float32(rapid.IntRange(-4, 4).Draw(t, label+"-x")), float32(rapid.IntRange(-4, 4).Draw(t, label+"-y"))}}
 	if rapid.IntRange(0, 3).Draw(t, label+"-rank") > 0 {
 		d["rank"] = int64(rapid.IntRange(0, 3).Draw(t, label+"-rk"))
